@@ -57,9 +57,10 @@ class BaseManager:
         return sid
 
     def is_connected(self, sid, namespace):
-        if namespace in self.pending_disconnect and \
-                sid in self.pending_disconnect[namespace]:
+        if sid in self.pending_disconnect.get(namespace, ()):
             # the client is in the process of being disconnected
+            # (one look at the table: another thread may be removing the
+            # namespace's entry right now)
             return False
         try:
             return self.rooms[namespace][None][sid] is not None
@@ -108,11 +109,13 @@ class BaseManager:
             self.basic_leave_room(sid, namespace, room)
         if sid in self.callbacks:
             del self.callbacks[sid]
-        if namespace in self.pending_disconnect and \
-                sid in self.pending_disconnect[namespace]:
-            self.pending_disconnect[namespace].remove(sid)
-            if len(self.pending_disconnect[namespace]) == 0:
-                del self.pending_disconnect[namespace]
+        with self._disconnect_lock:
+            # (the entry of a namespace is shared by all its clients)
+            if namespace in self.pending_disconnect and \
+                    sid in self.pending_disconnect[namespace]:
+                self.pending_disconnect[namespace].remove(sid)
+                if len(self.pending_disconnect[namespace]) == 0:
+                    del self.pending_disconnect[namespace]
 
     def basic_enter_room(self, sid, namespace, room, eio_sid=None):
         if eio_sid is None and namespace not in self.rooms:
